@@ -479,6 +479,71 @@ Proof.
     + intros f. rewrite (reg_new_rev n1 s k dir rc alloc f HI1 Ek Epp). apply Hr1.
 Qed.
 
+(* ---------------------------------------------------------------- events_network_register
+   refused for lack of memory: whatever the point of the refusal, the state left behind is the
+   old one, or the old one after init(), or that with the socket list grown by empty records
+   (err1 takes the stored record out again) *)
+Lemma sk_set_back dir rc k : sk_get dir k = None -> sk_set dir None (sk_set dir (Some rc) k) = k.
+Proof. destruct dir, k; simpl; intros ->; reflexivity. Qed.
+
+Lemma upd_nth_same {A} (l : list A) i x : nth_error l i = Some x -> upd_nth i x l = l.
+Proof.
+  revert i. induction l as [|a l IH]; intros [|i] H; simpl in *; try discriminate.
+  - inversion H; reflexivity.
+  - f_equal. apply IH. exact H.
+Qed.
+
+Lemma net_with_self n : net_with n (socks n) (fds n) = n.
+Proof. destruct n; reflexivity. Qed.
+
+Definition net_grown (fd : Z) (n0 : net_st) : net_st :=
+  if length (socks (net_init n0)) <=? Z.to_nat fd then growsocketlist (S (Z.to_nat fd)) (net_init n0)
+  else net_init n0.
+
+Lemma net_register_refused_cases stage cb fd op rid n0 :
+  net_register_refused stage cb fd op rid n0 = n0 \/
+  net_register_refused stage cb fd op rid n0 = net_init n0 \/
+  ((0 <= fd)%Z /\ net_register_refused stage cb fd op rid n0 = net_grown fd n0).
+Proof.
+  unfold net_register_refused, net_grown.
+  destruct (stage <=? 1); [auto|]. destruct (stage =? 2); [auto|].
+  destruct (fd <? 0)%Z eqn:Efd; [auto|]. apply Z.ltb_ge in Efd.
+  destruct (op_dir op) as [dir|]; [|auto].
+  right; right. split; [exact Efd|].
+  set (n1 := if length (socks (net_init n0)) <=? Z.to_nat fd
+             then growsocketlist (S (Z.to_nat fd)) (net_init n0) else net_init n0).
+  destruct (stage =? 3); [reflexivity|].
+  destruct (nth_error (socks n1) (Z.to_nat fd)) as [k|] eqn:Ek; [|reflexivity].
+  destruct (sk_get dir k) eqn:Eg; [reflexivity|].
+  rewrite upd_nth_twice, sk_set_back by exact Eg. rewrite upd_nth_same by exact Ek. apply net_with_self.
+Qed.
+
+Lemma net_init_fds n : NetInv n -> fds (net_init n) = fds n.
+Proof.
+  intros HI. unfold net_init. destruct (net_inited n) eqn:E; [reflexivity|].
+  destruct (n_uninit n HI E) as [_ B]. rewrite B. reflexivity.
+Qed.
+
+Lemma net_register_refused_spec stage cb fd op rid n0 :
+  NetInv n0 ->
+  NetInv (net_register_refused stage cb fd op rid n0) /\
+  (forall f d, field (net_register_refused stage cb fd op rid n0) f d = field n0 f d) /\
+  (forall f, rev_at (net_register_refused stage cb fd op rid n0) f = rev_at n0 f) /\
+  fds (net_register_refused stage cb fd op rid n0) = fds n0.
+Proof.
+  intros HI.
+  assert (Hinit : NetInv (net_init n0) /\ (forall f d, field (net_init n0) f d = field n0 f d) /\
+                  (forall f, rev_at (net_init n0) f = rev_at n0 f) /\ fds (net_init n0) = fds n0).
+  { split; [apply net_init_inv; exact HI|]. split; [intros; apply net_init_field; exact HI|].
+    split; [|apply net_init_fds; exact HI]. intros f. unfold rev_at. rewrite net_init_slot by exact HI. reflexivity. }
+  destruct (net_register_refused_cases stage cb fd op rid n0) as [-> | [-> | [Hfd ->]]]; [auto | exact Hinit |].
+  destruct Hinit as [A [B [C D]]]. unfold net_grown.
+  destruct (length (socks (net_init n0)) <=? Z.to_nat fd); [|auto].
+  split; [apply grow_inv; [exact A | apply net_init_inited]|].
+  split; [intros f d; rewrite grow_field; apply B|].
+  split; [|exact D]. intros f. unfold rev_at. rewrite grow_slot. apply C.
+Qed.
+
 (* ================================================================ removing a registration:
    the field (s, dir) is emptied and clearbit(pollpos, bit) runs.  Used by
    events_network_cancel and by the dispatch in events_network_get. *)
